@@ -154,7 +154,7 @@ func ruleExtractorErrors(r *Run) {
 		// both scan loops exist and are not left early
 		loops := callLoops(fn, func(c *ssa.Call) bool {
 			callee := staticCallee(c)
-			return callee != nil && (callee.Name() == "ScanRecord" || callee.Name() == "ScanKeyval")
+			return callee != nil && (cname(callee) == "ScanRecord" || cname(callee) == "ScanKeyval")
 		})
 		if len(loops) != 2 {
 			bad = true
@@ -458,9 +458,9 @@ func ruleJSONLeaves(r *Run) {
 							if callee == nil {
 								continue
 							}
-							switch callee.Name() {
+							switch cname(callee) {
 							case "walkArr", "walkObj":
-								got = callee.Name()
+								got = cname(callee)
 							case "matchLiteral":
 								arg := c.Call.Common().Args[1]
 								if len(c.Args) > 1 && c.Args[1].V != nil {
@@ -574,7 +574,7 @@ func leafSource(v ssa.Value) string {
 	}
 	if c, _, ok := extractOf(v); ok {
 		if callee := staticCallee(c); callee != nil {
-			return callee.Name()
+			return cname(callee)
 		}
 	}
 	if c, ok := v.(*ssa.Call); ok {
@@ -583,7 +583,7 @@ func leafSource(v ssa.Value) string {
 			if len(c.Call.Args) > 0 {
 				inner = leafSource(c.Call.Args[0])
 			}
-			return callee.Name() + "(" + inner + ")"
+			return cname(callee) + "(" + inner + ")"
 		}
 	}
 	return describe(v0, 0)
